@@ -779,11 +779,18 @@ class CopcReader:
         points = self._fetch_and_decompress_points_of_nodes(nodes)
 
         if bounds is not None:
-            MINS = np.round(
-                (bounds.mins - self.header.offsets) / self.header.scales
+            # clipped so that bounds (far) outside of the int32 grid saturate
+            # instead of wrapping around when converted
+            i32 = np.iinfo(np.int32)
+            MINS = np.clip(
+                np.round((bounds.mins - self.header.offsets) / self.header.scales),
+                i32.min,
+                i32.max,
             ).astype(np.int32)
-            MAXS = np.round(
-                (bounds.maxs - self.header.offsets) / self.header.scales
+            MAXS = np.clip(
+                np.round((bounds.maxs - self.header.offsets) / self.header.scales),
+                i32.min,
+                i32.max,
             ).astype(np.int32)
             x_keep = (MINS[0] <= points.X) & (points.X <= MAXS[0])
             y_keep = (MINS[1] <= points.Y) & (points.Y <= MAXS[1])
